@@ -69,6 +69,10 @@ fn is_chronological(m: &Beatmap, text: &str) -> bool {
 }
 
 pub fn corpus(rng: &mut Rng, n_gen: usize, with_hostile: bool) -> Vec<(String, String, bool)> {
+    corpus_with(rng, n_gen, with_hostile, false)
+}
+
+pub fn corpus_with(rng: &mut Rng, n_gen: usize, with_hostile: bool, known_shapes: bool) -> Vec<(String, String, bool)> {
     // (name, text, in the C02 domain by construction)
     let mut v = vec![];
     for (name, bytes) in bundled_files() {
@@ -81,6 +85,7 @@ pub fn corpus(rng: &mut Rng, n_gen: usize, with_hostile: bool) -> Vec<(String, S
         o.mode = Some((i % 4) as u8);
         o.objects = 4 + rng.below(14);
         o.timing_lines = 1 + rng.below(10);
+        o.known_shapes = known_shapes;
         v.push((format!("gen-c02-{i}"), gen_map(rng, &o), true));
     }
     if with_hostile {
@@ -91,6 +96,14 @@ pub fn corpus(rng: &mut Rng, n_gen: usize, with_hostile: bool) -> Vec<(String, S
         }
     }
     v
+}
+
+/// a slider without a requested length whose natural length exceeds what the decoder accepts as a length
+fn beyond_limit(h: &rosu_map::section::hit_objects::HitObject) -> bool {
+    match &h.kind {
+        HitObjectKind::Slider(s) => s.path.expected_dist().is_none() && s.path.clone().curve().dist() > 131_072.0,
+        _ => false,
+    }
 }
 
 /// classify a C02 difference for known-finding matching
@@ -113,7 +126,13 @@ fn c02_sig(diff: &str, m1: &Beatmap) -> String {
         }
     }
     if diff.starts_with("hit object count") {
+        if m1.hit_objects.iter().any(beyond_limit) {
+            return "hit-object-count:natural-length-beyond-limit".into();
+        }
         return "hit-object-count".into();
+    }
+    if (diff == "audio_file" && m1.audio_file.contains("//")) || (diff == "background_file" && m1.background_file.contains("//")) {
+        return "filename-with-double-slash".into();
     }
     diff.split(' ').next().unwrap_or(diff).to_string()
 }
@@ -122,7 +141,7 @@ pub fn encoder_relations(args: &Args, s: &mut Summary) {
     let prop = args.opt("prop").unwrap_or("C02").to_string();
     let thorough = args.opt("tier") == Some("thorough");
     let mut rng = Rng::new(args.seed);
-    let files = corpus(&mut rng, if thorough { 1500 } else { 250 }, prop == "C04");
+    let files = corpus_with(&mut rng, if thorough { 1500 } else { 250 }, prop == "C04", true);
     for (name, text, _) in &files {
         let r = guarded(&format!("{prop} {name}"), || roundtrip(text));
         s.checks += 1;
@@ -145,7 +164,15 @@ pub fn encoder_relations(args: &Args, s: &mut Summary) {
             if !probs.is_empty() {
                 let typed_last = probs.iter().any(|p| p.contains("[HitObjects] rejects")) &&
                     m1.hit_objects.iter().any(|h| matches!(&h.kind, HitObjectKind::Slider(sl) if sl.path.control_points().len() > 1 && sl.path.control_points().last().map_or(false, |c| c.path_type.is_some())));
-                s.mismatch(if typed_last { "rejects-own-output:typed-last-point" } else { "rejects-own-output" },
+                // only sliders of the known shape are affected: every rejected line carries a length beyond the limit and the
+                // object count dropped by exactly that many
+                let n_beyond = m1.hit_objects.iter().filter(|h| beyond_limit(h)).count();
+                let rejected: Vec<&String> = probs.iter().filter(|p| p.contains("rejects its own encoder's line")).collect();
+                let all_beyond = n_beyond > 0 && rejected.len() == n_beyond
+                    && rejected.iter().all(|p| p.starts_with("[HitObjects]") && p.split(',').nth(7).and_then(|x| x.trim().parse::<f64>().ok()).map_or(false, |l| l > 131_072.0))
+                    && probs.iter().all(|p| p.contains("rejects its own encoder's line") || p.starts_with("hit objects "))
+                    && m2.hit_objects.len() + n_beyond == m1.hit_objects.len();
+                s.mismatch(if all_beyond { "rejects-own-output:natural-length-beyond-limit" } else if typed_last { "rejects-own-output:typed-last-point" } else { "rejects-own-output" },
                            json!({"file": name, "problems": probs.iter().take(4).collect::<Vec<_>>(), "text": if name.starts_with("gen") { text.as_str() } else { "" }}));
             }
         } else {
